@@ -72,6 +72,7 @@ type vC08Lab struct {
 	// delegations removed from the cache since the last tree (eviction / ErrorCount / purge)
 	pendingRemoved []string
 	evicted        map[string]bool
+	grant          map[int]int64 // server id -> end of the longest lease ever granted towards it
 }
 
 func (l *vC08Lab) keyID(name string, qtype uint16) int {
@@ -105,6 +106,9 @@ func (l *vC08Lab) criticals() []int64 {
 		cs = append(cs, v)
 	}
 	for _, v := range l.retired {
+		cs = append(cs, v)
+	}
+	for _, v := range l.grant {
 		cs = append(cs, v)
 	}
 	return cs
@@ -219,13 +223,13 @@ func (l *vC08Lab) tree(name string, t0, t1 int64, refresh, fromCache bool, log [
 				}
 				// a lease that is still running is neither extended nor re-pointed by a further
 				// referral; once it has run out the next referral starts a new one
-				if cur, have := l.lastRef[e.refZ]; !have || t0 >= cur || l.evicted[e.refZ] {
-					if have && l.evicted[e.refZ] && l.lastTo[e.refZ] == e.refTo && cur > end {
-						end = cur // what was learned under the evicted entry's lease may still be around
-					}
+				if cur, have := l.lastRef[e.refZ]; !have || t0 >= cur || l.evicted[e.refZ] { // (what was learned under an evicted entry's lease stays covered by grant[])
 					l.lastRef[e.refZ] = end
 					l.lastTo[e.refZ] = e.refTo
 					delete(l.evicted, e.refZ)
+					if end > l.grant[e.refTo] {
+						l.grant[e.refTo] = end
+					}
 				}
 			}
 		case vC08RespAnswer, vC08RespNeg:
@@ -292,19 +296,25 @@ func (l *vC08Lab) query(name string) {
 	l.tree(name, t0, t2, true, false, log, true)
 }
 
-// retire marks the servers reachable only through zone's current delegation as ghosts-to-be
+// retire records from which instant nobody may use a server any more, once its
+// delegation was withdrawn or re-pointed away: the end of the longest lease any
+// parent-side referral ever granted towards it (now, if there never was one).
+// Whatever that server still delegates further down stays reachable through it
+// for exactly as long: a fresh referral from a server whose own lease is running
+// is legitimate, and is bounded by that lease.
 func (l *vC08Lab) retire(zone string, target int) {
-	until, ok := l.lastRef[zone]
-	if !ok || l.lastTo[zone] != target {
-		until = l.p.now() // never referred to (or not to this target): no lease outstanding
+	until := l.p.now()
+	if g, ok := l.grant[target]; ok && g > until {
+		until = g
 	}
 	l.retired[target] = until
-	// whatever that server still delegates further down stays reachable through it for
-	// exactly as long: a fresh referral from a server whose own lease is running is
-	// legitimate, and is bounded by that lease
 	for _, d := range l.w.srvs[target].deleg {
 		if d.active {
-			l.retired[d.target] = until
+			u := until
+			if g, ok := l.grant[d.target]; ok && g > u {
+				u = g
+			}
+			l.retired[d.target] = u
 		}
 	}
 }
@@ -367,7 +377,7 @@ func (l *vC08Lab) scenario(idx int) {
 	l.keys, l.names, l.trees, l.desc = map[string]int{}, nil, nil, nil
 	l.lastRef, l.lastTo, l.retired = map[string]int64{}, map[string]int{}, map[int]int64{}
 	l.goFail, l.over12h, l.inconcl, l.nontriv, l.ghostChk = "", false, false, false, 0
-	l.pendingRemoved, l.evicted = nil, map[string]bool{}
+	l.pendingRemoved, l.evicted, l.grant = nil, map[string]bool{}, map[int]int64{}
 	l.labs = vC08Labels{}
 	l.desc = append(l.desc, fmt.Sprintf("scenario %d: theme=%d deep=%v prefetch=%d tld=%v a=%v", idx, theme, deep, prefetch,
 		w.srvs[0].deleg["tld."].nsTTL, w.srvs[1].deleg["a.tld."].nsTTL))
